@@ -506,13 +506,29 @@ type intReport struct {
 	fixed bool
 }
 
+// matches: a report is about an injected corruption if it names the things involved - the ids, values and
+// store.field names (words with a digit, a dot, a quote or a backslash). The wording of the report is not part of
+// the property, so it is not compared.
 func matches(msg string, subs []string) bool {
 	for _, s := range subs {
-		if !strings.Contains(msg, s) {
-			return false
+		for _, tok := range salientTokens(s) {
+			if !strings.Contains(msg, tok) {
+				return false
+			}
 		}
 	}
 	return true
+}
+
+func salientTokens(s string) []string {
+	var out []string
+	for _, w := range strings.FieldsFunc(s, func(r rune) bool { return r == ' ' || r == ',' }) {
+		w = strings.TrimRight(w, ".:;")
+		if strings.ContainsAny(w, "0123456789.\"\\") && w != "" {
+			out = append(out, w)
+		}
+	}
+	return out
 }
 
 func (r *Run) checkAll(fix bool) ([]intReport, error) {
